@@ -392,8 +392,18 @@ def check_splinecv(case, ctx):
         dampings = [None] + dampings
     cv = FixedSplits(case["splits"])
     mindists = None if case.get("mindists") is None else [m * ds["cloud"]["scale"] for m in case["mindists"]]
-    mkw = {} if mindists is None else dict(mindists=tuple(mindists))
-    scv = quiet(vd.SplineCV, dampings=tuple(dampings), cv=cv, scoring=case["scoring"], delayed=case["delayed"], **mkw)
+    # the candidates as a "list (or other iterable)": tuple, list, array, or a one-shot iterator / generator
+    def as_iterable(vals, byte):
+        form = ["tuple", "list", "array", "iterator", "generator"][build.small_hash(case, byte) % 5]
+        if form == "array" and any(v is None for v in vals):
+            form = "list"
+        return {"tuple": tuple, "list": list, "array": np.array, "iterator": lambda v: iter(list(v)), "generator": lambda v: (x for x in list(v))}[form](vals), form
+
+    damp_arg, damp_form = as_iterable(dampings, 7)
+    mkw = {}
+    if mindists is not None:
+        mkw["mindists"], md_form = as_iterable(mindists, 8)
+    scv = quiet(vd.SplineCV, dampings=damp_arg, cv=cv, scoring=case["scoring"], delayed=case["delayed"], **mkw)
     quiet(scv.fit, (e, n), d, w)
     scores = scv.scores_
     if case["delayed"]:
@@ -429,7 +439,7 @@ def check_splinecv(case, ctx):
     qe, qn = (np.array(v) for v in gen.cloud_query(ds["cloud"], case["query"]))
     ctx.check(np.array_equal(np.asarray(scv.predict((qe, qn))), np.asarray(ref.predict((qe, qn)))), "SplineCV does not predict like a Spline with the selected parameters fitted to all the data")
     ctx.check(np.allclose(scv.region_, ref.region_) and np.array_equal(scv.force_, ref.force_), "SplineCV attributes differ from the refitted Spline's")
-    ctx.label("candidates%d" % len(dampings), "scoring_%s" % case["scoring"], "delayed" if case["delayed"] else "serial", "weights" if w is not None else "noweights")
+    ctx.label("candidates%d" % len(dampings), "scoring_%s" % case["scoring"], "delayed" if case["delayed"] else "serial", "weights" if w is not None else "noweights", "dampings_as_" + damp_form)
     ctx.nt(len(dampings) >= 2 and len(case["splits"]) >= 2)
 
 
